@@ -1,5 +1,6 @@
 import JediModel.Proto
 import JediModel.Model.SetIter
+import JediModel.Model.YieldOrder
 import JediModel.Gen.C02
 import JediModel.Model.PyCore
 import JediModel.Lemmas.PyCoreExact
@@ -152,6 +153,22 @@ def handle (j : Json) : Json :=
       let cols := z ss
       jobj [("cols", jarr (cols.map fun c => jarr (c.map jnat))),
             ("all", jarr ((JediModel.SetIter.allValues cols).map jnat))]
+  | "yieldorder" =>
+    -- get_yield_lazy_values: `parents` = [[yield id, tag, for id]] (tag 0 top, 1 simple for, 2 other),
+    -- `lens` = [[for id, number of elements]]
+    let ps : List (Nat × JediModel.YieldOrder.Par) := (arr j "parents").map fun p =>
+      match (asArr p).map asNat with
+      | [y, 0, _] => (y, .top)
+      | [y, 1, f] => (y, .simpleFor f)
+      | y :: _ => (y, .other)
+      | [] => (0, .other)
+    let lens : List (Nat × Nat) := (arr j "lens").map fun p =>
+      match (asArr p).map asNat with
+      | [f, n] => (f, n)
+      | _ => (0, 0)
+    let len (f : Nat) : Nat := ((lens.find? fun p => p.1 == f).map (·.2)).getD 0
+    jobj [("order", jopt (fun out => jarr (out.map fun (q : Nat × Option Nat) =>
+      jarr [jnat q.1, jopt jnat q.2])) (JediModel.YieldOrder.order JediModel.Gen.C02.yieldGroupsKeyed len ps))]
   | "bind" => Bind.handle j
   | "lookup" => Lookup.handle j
   | "run" =>
